@@ -70,6 +70,8 @@ type ReturnPoint struct {
 }
 
 type Exec struct {
+	opaque   map[string]bool
+	rootOpts map[string]string // options of the contract of the function being verified
 	fnIdx  map[*ssa.Function]int
 	valSeq map[ssa.Value]int64
 	pureSpecDone map[*Term]bool
